@@ -73,6 +73,8 @@ class World:
         scen['eol'] = rng.choice(['\n', '\n', '\r\n', '\r\n', '\r', ';;\n']) if kind == 'string' else '\n'
         if kind == 'string' and len(scen['eol']) > 1 and rng.random() < 0.4:
             scen['chunk'] = 'eol'
+        # byte communicators with variable-length replies: the tail is fetched by the getFullReply hook
+        scen['varlen'] = kind == 'bytes' and rng.random() < 0.4
         # pause before sending (line communicators): data arriving during the pause is stale for the command
         scen['wait_before'] = rng.choice([0, 0, 0.05, 0.3]) if kind == 'string' else 0
         if kind == 'string' and rng.random() < 0.15:
@@ -117,6 +119,16 @@ class World:
                     if cmd.startswith(b'W'):
                         continue          # writeline: no reply expected
                     reply = (b'R:' + cmd + eolb) if scen['kind'] == 'string' else (b'R' + cmd[1:])
+                    if scen.get('varlen') and not (fault == 'silence' and n > scen['fault_at']) and \
+                            not (fault in ('disconnect', 'disconnect-refuse') and n > scen['fault_at'] and not dev['dropped']) and \
+                            not (fault == 'late-reply' and n == scen['fault_at'] + 1):
+                        # header now, the tail a little later (the client must keep the exchange together)
+                        if scen['delay']:
+                            D.vsleep(scen['delay'])
+                        sock.peer_send(reply)
+                        D.vsleep(0.05)
+                        sock.peer_send(cmd[1:5])
+                        continue
                     if fault == 'silence' and n > scen['fault_at']:
                         continue
                     if fault in ('disconnect', 'disconnect-refuse') and n > scen['fault_at'] and not dev['dropped']:
@@ -184,7 +196,10 @@ class World:
 
         def root():
             s = D.CURRENT
-            iocls = type('IO16', (base,), {'__module__': __name__})
+            ns = {'__module__': __name__}
+            if scen.get('varlen'):
+                ns['getFullReply'] = lambda self, request, header: header + self.readBytes(4)
+            iocls = type('IO16', (base,), ns)
             cfg = {'io': {'cls': iocls, 'description': 'communicator', 'uri': 'tcp://devhost:5001', 'timeout': {'value': TIMEOUT}, 'pollinterval': {'value': 3}}}
             if scen['kind'] == 'string' and scen.get('eol', '\n') != '\n':
                 cfg['io']['end_of_line'] = scen['eol']
@@ -257,7 +272,9 @@ class World:
 
     # ---------------------------------------------------------------- judge
     def expect_reply(self, scen, tok):
-        return ('R:' + tok) if scen['kind'] == 'string' else (b'R' + tok[1:])
+        if scen['kind'] == 'string':
+            return 'R:' + tok
+        return b'R' + tok[1:] + (tok[1:5] if scen.get('varlen') else b'')
 
     def mispair(self, scen, dev, cmdtime, toks, got, want):
         """classify a wrong reply.  data the device emitted BEFORE the command was sent must never be returned
